@@ -15,7 +15,7 @@ type Ev map[string]any
 // Recorder collects the events of one connection (or one run) in program order.
 type Recorder struct {
 	mu     sync.Mutex
-	MaxBuf int // largest matching buffer seen on any Connection of this client (bytes)
+	MaxBuf int  // largest matching buffer seen on any Connection of this client (bytes)
 	Hist   []Ev // events of the specification's vocabulary
 	Aux    []Ev // everything else (matcher calls, closes, ...)
 	Stream []byte
